@@ -105,8 +105,8 @@ def setter_value(o, member, T):
     return cur
 
 
-def method_args(o, owner, member, ws, T, tmp):
-    """(args, kwargs) for a public method"""
+def method_args(o, owner, member, ws, T, tmp, arg=None):
+    """(args, kwargs) for a public method; `arg` = label of the fixture entity to pass to Workspace.fetch_* instead of the default"""
     import numpy as np
     from geoh5py.data import Data
     from geoh5py.groups import Group, PropertyGroup
@@ -135,10 +135,10 @@ def method_args(o, owner, member, ws, T, tmp):
             "remove_none_referents": lambda: ((ws._data, "Data"), {}),  # noqa: SLF001
             "finalize": lambda: ((), {}), "close": lambda: ((), {}), "open": lambda: ((), {}),
             "fetch_or_create_root": lambda: ((), {}),
-            "fetch_children": lambda: ((_need(pts, "pts"),), {}),
+            "fetch_children": lambda: ((_need(T[arg]() if arg else pts, "entity"),), {}),
             "fetch_array_attribute": lambda: ((_need(T["curve"](), "curve"), "cells"), {}),
-            "fetch_values": lambda: ((_need(T["data_float"](), "data"),), {}),
-            "fetch_metadata": lambda: ((_need(pts, "pts").uid,), {}),
+            "fetch_values": lambda: ((_need(T[arg]() if arg else T["data_float"](), "data"),), {}),
+            "fetch_metadata": lambda: ((_need(T[arg]() if arg else pts, "entity").uid,), {}),
             "fetch_type": lambda: ((_need(pts, "pts").entity_type.uid, "Object"), {}),
             "fetch_file_object": lambda: ((_need(T["data_file"](), "file data").uid, "x.txt"), {}),
             "fetch_concatenated_attributes": lambda: ((_need(T["dhgroup"](), "dhgroup"),), {}),
@@ -309,7 +309,7 @@ def prepare(ws, T, entry, tmp):
         return lambda: setattr(o, member, val)
     if kind == "getter":
         return lambda: getattr(o, member)
-    args, kwargs = method_args(o, owner, member, ws, T, tmp)
+    args, kwargs = method_args(o, owner, member, ws, T, tmp, entry.get("arg"))
     variant = entry.get("variant")
     if member in ("copy", "copy_from_extent") and variant == "to_group":
         kwargs = dict(kwargs, parent=T["subgroup"]())
